@@ -12,6 +12,7 @@ NOT decided: user code that mutates the tables directly."""
 import ast
 
 from ..model import AnalysisError, dotted_name, enclosing_function, methods, norm, qualname, walk_no_nested
+from . import common as K
 
 LEVEL_TEXT = ("static analysis (ast): whole-package who-may-write scan of the global unit tables, do/undo pairing of "
               "the registration loop, try/handler coverage of every failure point after the first mutation, lexical "
@@ -389,10 +390,29 @@ def r5_no_reentry(ctx):
     ctx.floor("with-scopes inside classes", n, 5)
 
 
+UNITS_STATE_OWNERS = {
+    # the three process-wide tables: written by the registration and its undo only (C09.R1 decides what they may do to them)
+    "UNIT_STANDARD": {"UnitEnvironment.__init__", "UnitEnvironment.close"},
+    "UNIT_TYPES": {"UnitEnvironment.__init__", "UnitEnvironment.close"},
+    "UNIT_PREFIXES": {"UnitEnvironment.__init__", "UnitEnvironment.close"},
+    # registry of NumPy handlers filled at import time by the @implements decorator; holds no unit data
+    "HANDLED_FUNCTIONS": {"implements", "implements.decorator", "decorator"},
+}
+
+
+def r6_no_derived_state(ctx):
+    """Besides the registered tables nothing in the units package (nor in the DIP layer that opens unit scopes) is
+    process-wide mutable state: a memo of factors, dimensions, parsed symbols or ratios derived from the tables keeps
+    serving a custom unit's old definition after its scope ended and the symbol was registered again."""
+    K.hidden_module_state(ctx, ["src/scinumtools/units", "src/scinumtools/dip"], UNITS_STATE_OWNERS,
+                          "a value derived from the unit tables must not outlive the scope that registered the unit")
+
+
 RULES = [
     ("C09.R1", "who-may-write: only UnitEnvironment.__init__/close mutate UNIT_STANDARD/UNIT_PREFIXES/UNIT_TYPES/QUANTITY_* (direct, aliased, row-level, container calls)", r1_single_writer),
     ("C09.R2", "do/undo pairing: each table mutation is followed at once, in the same block, by recording its key; close() applies the inverse operation per recorded key on the same table and writes nothing else", r2_pairing),
     ("C09.R3", "all exits of registration: every mutation and every may-raise statement after one is inside a try whose handler calls close() and re-raises", r3_undo_on_failure),
     ("C09.R4", "every UnitEnvironment construction is a with-context (or closed in a finally); __exit__ closes unconditionally", r4_lexical_scopes),
     ("C09.R5", "no with-scope is re-entered with the same units from methods of the same object reachable from its body", r5_no_reentry),
+    ("C09.R6", "who-may-hold-state: besides the registered tables no module-level container of units/ or dip/ is written from a function and no function is memoised (a memo of table-derived values outlives the scope)", r6_no_derived_state),
 ]
